@@ -319,14 +319,69 @@ pub fn replay(case: &Value, _kf: &KnownFindings) -> Result<(), Failure> {
 }
 
 pub fn run(ctx: &mut Ctx) {
-    ctx.rule = "proptest: a frame built by the reference codec from a random description (C01's space) with 0..3 mutations {flip any bit, flip a MIC bit, replace MHDR, change FOptsLen nibble/FCtrl, truncate, append, re-MIC for a neighbouring 16-bit epoch}, right or independent keys, AppSKey present/absent, counter argument {built, same low half other high half, other low half, boundaries}; pure random strings; JoinAccept/JoinRequest frames likewise. Oracle: reference decoder + reference MIC, both directions (accept and reject), buffer identity on failure, double decrypt. Non-trivial: structurally valid data frame whose MIC is correct or differs from correct in <= 8 bits, or a mutation that changed the structure class; distinct by hash of (frame, keys, counter)".into();
+    ctx.rule = "proptest: a frame built by the reference codec from a random description (C01's space) with 0..3 mutations {flip any bit, flip a MIC bit, replace MHDR, change FOptsLen nibble/FCtrl, truncate, append, re-MIC for a neighbouring 16-bit epoch}, right or independent keys, AppSKey present/absent, counter argument {built, same low half other high half, other low half, boundaries}; pure random strings; JoinAccept/JoinRequest frames likewise; reference-built data frames and JoinAccepts decoded with a user-supplied Crypto implementation that honours exactly the documented one-block-per-call contract. Oracle: reference decoder + reference MIC, both directions (accept and reject), buffer identity on failure, double decrypt. Non-trivial: structurally valid data frame whose MIC is correct or differs from correct in <= 8 bits, or a mutation that changed the structure class; distinct by hash of (frame, keys, counter)".into();
     ctx.assumptions = vec![
         "reference codec as in C01; structural validity = LoRaWAN 1.0.x section 4 (min 12 bytes, major 0, MType 2..5, FOptsLen fits before the MIC)".into(),
         "decryption counter of the crate = high 16 bits of the argument | wire counter, as its documentation states".into(),
         "JoinAccept: no untouched-buffer claim on InvalidMic (the API documents the transformation)".into(),
     ];
-    let cases = ctx.tier.pick(400_000u32, 6_000_000);
     let seed = ctx.seed;
+    // ---- reference-built frames decoded with a user-supplied Crypto implementation that honours exactly
+    // the documented one-block-per-call contract (enc::StrictCrypto)
+    {
+        let mut rng = SplitMix::new(seed ^ 0xC02_5);
+        let mut st = Stats::new();
+        for i in 0..6000u32 {
+            st.eval();
+            st.class("user-supplied-crypto");
+            let key = rng.key();
+            let c = StrictCrypto::new(&key);
+            if i % 2 == 0 {
+                let ja = JoinAcceptDesc { join_nonce: rng.next_u32() & 0xFFFFFF, net_id: rng.next_u32() & 0xFFFFFF, dev_addr: rng.next_u32(), dl_settings: rng.next_u32() as u8, rx_delay: (i % 16) as u8,
+                    cflist: match i % 6 { 0 => None, 2 => Some(RefCfList::Type0([8671000, 8673000, 0, 8677000, 8679000])), _ => Some(RefCfList::Type1(rng.bytes(9).try_into().unwrap())) } };
+                let wire = encode_join_accept(&ja, &key);
+                let case = json!({"kind":"join_accept_user_crypto","frame":hex(&wire),"key":hex(&key)});
+                let mut buf = wire.clone();
+                let r = catch(|| DecryptedJoinAcceptPayload::check_mic_and_decrypt_in_place(&mut buf, &c).map(|d| (d.join_nonce().value(), d.net_id().value(), d.dev_addr().value(), d.dl_settings().raw_value(), d.rx_delay(), d.c_f_list().is_some())));
+                match r {
+                    Err(pm) => st.fail(Failure::panic(case, &pm).with_fp("user-crypto/contract-breached")),
+                    Ok(Err(e)) => st.fail(Failure::new("checked-decode-refused", case, format!("authentic JoinAccept refused with a user-supplied crypto: {e:?}")).with_fp("join-accept-authentic-rejected/user-crypto")),
+                    Ok(Ok(g)) => {
+                        let want = (ja.join_nonce, ja.net_id, ja.dev_addr, ja.dl_settings, ja.rx_delay & 0x0f, ja.cflist.is_some());
+                        if g != want {
+                            st.fail(Failure::new("decoded-fields", case, format!("JoinAccept with user-supplied crypto: want {want:?}, got {g:?}")).with_fp("join-accept-fields/user-crypto"));
+                        } else {
+                            st.nt_distinct();
+                        }
+                    }
+                }
+            } else {
+                let app = rng.key();
+                let plen = [0usize, 1, 16, 17, 33, 120, 242][(i as usize / 2) % 7];
+                let d = DataDesc { ftype: FType::ALL[(i as usize / 2) % 4], dev_addr: rng.next_u32(), adr: rng.bool(), adr_ack_req: false, ack: rng.bool(), f_pending: false, fcnt: rng.next_u32(), fopts: rng.bytes((i as usize / 14) % 16),
+                    payload: if plen == 0 { RefPayload::None } else { RefPayload::Data { port: 1 + rng.below(255) as u8, data: rng.bytes(plen) } } };
+                let wire = encode_data(&d, &key, Some(&app));
+                let case = json!({"kind":"data_user_crypto","frame":hex(&wire),"nwk":hex(&key),"app":hex(&app),"fcnt":d.fcnt});
+                let ac = StrictCrypto::new(&app);
+                let mut buf = wire.clone();
+                let r = catch(|| DecryptedDataPayload::check_mic_and_decrypt_in_place(&mut buf, &c, Some(&ac), d.fcnt).map(|p| match p.frm_payload() { FrmPayload::Data(x) => x.to_vec(), _ => vec![] }));
+                match r {
+                    Err(pm) => st.fail(Failure::panic(case, &pm).with_fp("user-crypto/contract-breached")),
+                    Ok(Err(e)) => st.fail(Failure::new("checked-decode-refused", case, format!("authentic frame refused with a user-supplied crypto: {e:?}")).with_fp("mic-authentic-rejected/user-crypto")),
+                    Ok(Ok(plain)) => {
+                        let want = match &d.payload { RefPayload::Data { data, .. } => data.clone(), _ => vec![] };
+                        if plain != want {
+                            st.fail(Failure::new("decoded-fields", case, "plaintext differs with a user-supplied crypto").with_fp("decoded-fields/user-crypto"));
+                        } else {
+                            st.nt_distinct();
+                        }
+                    }
+                }
+            }
+        }
+        ctx.stats.merge(st);
+    }
+    let cases = ctx.tier.pick(400_000u32, 6_000_000);
     let nthreads = ctx.threads as u32;
     ctx.parallel(|ti, _n, st| {
         let strat = (
